@@ -212,12 +212,19 @@ func c06aEvents(body []ast.Stmt, bound string) []c06aEv {
 				}
 				r := c06aRoot(rhs)
 				switch {
-				case r != "" && own[r] && (c06aViaCopy(rhs) || c06aIsDeriveCall(rhs)):
+				case r != "" && own[r] && (c06aViaCopy(rhs) || c06aIsGetInstance(rhs)):
+					// only getInstance() yields a private statement; Session(…) / WithContext(…) alone SHARE the
+					// argument's *Statement — such a result stays "the argument itself" (next case)
 					if own[id.Name] {
 						// the rebinding may sit under a condition: the name stays "possibly the argument itself"
 						add("rebind", src(rhs), true)
 					} else {
 						cpy[id.Name] = true
+					}
+				case r != "" && own[r] && c06aIsDeriveCall(rhs):
+					if !own[id.Name] {
+						own[id.Name] = true
+						add("shareStmt", id.Name+" := "+c06aPath(rhs), false)
 					}
 				case c06aIsFresh(rhs) && (c06aMentions(rhs, own) || c06aMentions(rhs, alias) || c06aMentions(rhs, holder)):
 					if !own[id.Name] && !alias[id.Name] {
@@ -305,6 +312,15 @@ func c06aIsFresh(e ast.Expr) bool {
 	case *ast.CallExpr:
 		if id, ok := x.Fun.(*ast.Ident); ok {
 			return id.Name == "append" || id.Name == "make"
+		}
+	}
+	return false
+}
+
+func c06aIsGetInstance(e ast.Expr) bool {
+	if c, ok := e.(*ast.CallExpr); ok {
+		if sel, ok := c.Fun.(*ast.SelectorExpr); ok {
+			return sel.Sel.Name == "getInstance"
 		}
 	}
 	return false
